@@ -24,6 +24,19 @@ CLAIMS["C11"] = dict(
     note="Oracle: spec functions written from the Readme tables in the contract file. Not decided: equality of nested arrays beyond 'different length => unequal' (needs a recursive spec function; the element-wise comparison loop is verified only for panic-freedom and error propagation). String facts rest on the assumed string algebra axioms (length/concat/substring) listed in the evidence. Shifts: oracle is Go's shift with unsigned count (Readme says only 'bitshift').",
     ref="DESIGN.md section 4 C11")
 
+CLAIMS["C13"] = dict(
+    text="Proof (unbounded, any interleaving because every operation is verified from an arbitrary state satisfying the invariant): TLexer.Next/Snapshot/Commit/Rollback/Token/Err/From/To keep the cache append-only and the snapshot stack exact (Rollback restores precisely the saved read position; Next replays cached[readp+1] or appends exactly one result of the wrapped scanner); TLexer is proved to refine the abstract transactional-lexer model (pos, cached, depth, saved) the combinators are written against; every combinator closure (Ok, Assert, Not, Drop, Choose, OneOf, And, Any, SeparatedBy, SurroundedBy, Accept, Fmap) is proved against the type-level Parser contract (snapshot stack balanced, saved positions untouched, cache only extended) plus: Assert consumes nothing; OneOf leaves the position unchanged when every alternative fails; Choose/OneOf/Any/SeparatedBy loop invariants state the position is restored before the next alternative is tried; Choose's trailing panic is unreachable when its last gate is total.",
+    note="Not decided: the denotational sentence (a combined parser accepts/builds exactly as the ordered-choice recogniser) and the content of result lists (only the input position and transaction discipline are specified). Assumed: functions passed to Accept/Fmap and TokenWrapper.Wrap do not touch the lexer; closure preconditions on captured variables (len(args) >= 1, last gate total) are established by the constructing function and by parser.go call sites, which are not checked.",
+    ref="DESIGN.md section 4 C13")
+CLAIMS["C14"] = dict(
+    text="Proof (unbounded, every input string incl. non-ASCII bytes) of the scanner's DFA invariant and token postconditions: each of the 11 state functions and newSTR is proved against one type-level state contract (transitions start a lexeme in the state of the character's class, tokens end only on a character that cannot extend them, single-character states always end, blanks/comments are the only dropped lexemes); Lexer.Next preserves 0<=from<=to<=len(input), reader position, first-character/family agreement, and on every emitted token: text == input[from:to] (except string literals, see note), span ordered and adjacent to the next lexeme, non-empty, kind determined by the first character, maximal run (the next input byte does not extend the token), synthetic EOL only after a non-EOL token, EOF exactly once after EOL, then false forever; the loop has a proved variant (termination).",
+    note="String-literal token text has \\n substituted by the scanner (pinned by lexer_test.go), so text==span is claimed for every other kind. 'Everything between tokens is blanks or comments' is proved at transition level (only whitespace/comment states drop a lexeme, and their lexemes start with a blank or ';'), not as a quantified statement over the dropped bytes; the whitespace/comment-insensitivity corollary is a paper step. Facts hold while no lexer error has been reported (lclean). Assumed: strings.Reader.ReadRune contract (listed in evidence).",
+    ref="DESIGN.md section 4 C14")
+CLAIMS["C06"] = dict(
+    text="Proof of the function-level content: the scanner terminates (loop variant) and never panics on any input (eof state unreachable with input left, all index/slice operations in range); TLexer and every combinator closure are panic-free under the transaction invariant; tokenWrapper.Wrap cannot panic (slice bounds of string literals, numeric conversions) under the stated token-shape assumptions; reportError's three slice expressions and two strings.Repeat counts are in range whenever the reported span lies inside the input.",
+    note="Not decided: termination of the mutually recursive grammar functions in parser.go and Go stack exhaustion; the transformer (mk*) type assertions, which depend on the result-list shapes of the grammar; that every error span handed to reportError lies inside the input is proved for scanner spans (C14 span clause) but the propagation through combinator.Error values is not. Assumed preconditions are listed in the evidence (token shape at Wrap, accepted literals convert).",
+    ref="DESIGN.md section 4 C06")
+
 NA_DEFAULT = "engine stage not reached: contract designed (DESIGN.md section 4) but its obligations are not discharged by the engine as built, so nothing is claimed"
 
 props = [json.loads(l) for l in open("/verif/properties.jsonl")]
